@@ -1861,6 +1861,8 @@ def registrations(rt):
         k, fn = idx.find_method(rc, 'initialize_configuration')
         if fn is None or k is rt.Recognizer:
             raise AnalysisError('%s does not define initialize_configuration' % rc.qual)
+        from ..inline import normalise_registrations
+        fn = normalise_registrations(idx, k.mod, rc, fn)    # a table of rows + loop + helper method reads like the flat list
         found = []
 
         def one(node, binding):
